@@ -1,0 +1,42 @@
+//go:build verif
+
+package container
+
+import (
+	containerEvent "github.com/nspcc-dev/neofs-node/pkg/morph/event/container"
+	cid "github.com/nspcc-dev/neofs-sdk-go/container/id"
+	"github.com/nspcc-dev/neofs-sdk-go/session/v2"
+)
+
+// VerifSetResolver replaces the NNS resolver of the processor (verification harness only).
+func (cp *Processor) VerifSetResolver(r session.NNSResolver) { cp.resolver = r }
+
+// VerifProcessContainerPut runs processContainerPut synchronously.
+func (cp *Processor) VerifProcessContainerPut(req containerEvent.CreateContainerRequest, id cid.ID) {
+	cp.processContainerPut(req, id)
+}
+
+// VerifProcessCreateContainerRequest runs processCreateContainerRequest synchronously.
+func (cp *Processor) VerifProcessCreateContainerRequest(req containerEvent.CreateContainerV2Request) {
+	cp.processCreateContainerRequest(req)
+}
+
+// VerifProcessContainerDelete runs processContainerDelete synchronously.
+func (cp *Processor) VerifProcessContainerDelete(req containerEvent.RemoveContainerRequest) {
+	cp.processContainerDelete(req)
+}
+
+// VerifProcessPutEACLRequest runs processPutEACLRequest synchronously.
+func (cp *Processor) VerifProcessPutEACLRequest(req containerEvent.PutContainerEACLRequest) {
+	cp.processPutEACLRequest(req)
+}
+
+// VerifProcessSetAttributeRequest runs processSetAttributeRequest synchronously.
+func (cp *Processor) VerifProcessSetAttributeRequest(req containerEvent.SetAttributeRequest) {
+	cp.processSetAttributeRequest(req)
+}
+
+// VerifProcessRemoveAttributeRequest runs processRemoveAttributeRequest synchronously.
+func (cp *Processor) VerifProcessRemoveAttributeRequest(req containerEvent.RemoveAttributeRequest) {
+	cp.processRemoveAttributeRequest(req)
+}
